@@ -412,14 +412,85 @@ theorem inv_step (c : Conn Message) (hi : Inv c) (e : Ev Message) (he : e.Wf) : 
 
 theorem pat_length (tag len : Nat) : (pat tag len).length = len := by simp [pat]
 
-/-- The driver's on-demand frames are exactly the `MessageBuilder` messages with the pattern body. -/
-theorem lframe_is_message (id : Nat) (notify : Bool) (q : Bytes) (tag blen : Nat) :
-    (LFrame.of id notify q tag blen).bytes = (Builder.mk id notify 0 1 0 q (pat tag blen)).build.toVec ∧
-    (LFrame.of id notify q tag blen).len =
-      (Builder.mk id notify 0 1 0 q (pat tag blen)).build.toVec.length := by
+/-- The driver's described frames are exactly the `MessageBuilder` messages with the pattern body. -/
+theorem lframe_is_message (f : LFrame) :
+    f.bytes = f.message.toVec ∧ f.len = f.message.toVec.length := by
   constructor
-  · simp [LFrame.bytes, LFrame.of, Builder.build, Message.toVec, Header.patchLengths, pat_length]
-  · simp [LFrame.len, LFrame.of, Builder.build, Message.toVec, pat_length]; omega
+  · simp [LFrame.bytes, LFrame.message, LFrame.header, Builder.build, Message.toVec,
+      Header.patchLengths, pat_length]
+  · simp [LFrame.len, LFrame.message, Builder.build, Message.toVec, pat_length]; omega
+
+theorem lframe_wf (f : LFrame) (hid : f.id < 2^64) (hlen : 48 + f.query.length + f.blen < 2^64) :
+    f.message.WF :=
+  Builder.build_wf _ hid (by simp) (by simp) (by simp) (by simpa [pat_length] using hlen)
+
+/-! ### changing the representation of frames does not change the run -/
+
+theorem setCur_map {F G : Type} (g : F → G) (cur : Nat → Option (F × Nat)) (w : Nat)
+    (v : Option (F × Nat)) :
+    (fun w' => (setCur cur w v w').map fun p => (g p.1, p.2)) =
+      setCur (fun w' => (cur w').map fun p => (g p.1, p.2)) w (v.map fun p => (g p.1, p.2)) := by
+  funext w'
+  by_cases h : w' = w <;> simp [setCur, h]
+
+theorem step_map {F G : Type} (g : F → G) (lenF : F → Nat) (lenG : G → Nat)
+    (hlen : ∀ m, lenG (g m) = lenF m) (f : Facts) (c : Conn F) (e : Ev F) :
+    (step lenF f c e).map g = step lenG f (c.map g) (e.map g) := by
+  cases e with
+  | submit w m =>
+    cases h : c.cur w with
+    | some p =>
+      simp only [step, Ev.map, h, Conn.map, Option.map_some]
+    | none =>
+      simp only [step, Ev.map, h, Conn.map, Option.map_none]
+      congr 1
+      exact setCur_map g c.cur w (some (m, 0))
+  | progress w k =>
+    cases h : c.cur w with
+    | none => simp only [step, Ev.map, h, Conn.map, Option.map_none]
+    | some p =>
+      obtain ⟨m, off⟩ := p
+      have hcw : canWrite f (c.map g) w = canWrite f c w := rfl
+      simp only [step, Ev.map, h, Conn.map, Option.map_some, hlen]
+      change (Conn.map g _) = (if canWrite f (c.map g) w = true then _ else _)
+      rw [hcw]
+      by_cases hc : canWrite f c w = true
+      · simp only [hc, if_true]
+        by_cases hcomp : off + min k (lenF m - off) = lenF m
+        · simp only [hcomp, if_true]
+          simp only [Conn.map, List.map_append, List.map_cons, List.map_nil, Seg.map,
+            setCur_map g c.cur w none, Option.map_none]
+        · simp only [hcomp, if_false]
+          simp only [Conn.map, List.map_append, List.map_cons, List.map_nil, Seg.map,
+            setCur_map g c.cur w (some (m, off + min k (lenF m - off))), Option.map_some]
+      · simp only [hc]
+        rfl
+  | interrupt w =>
+    cases h : c.cur w with
+    | none => simp only [step, Ev.map, h, Conn.map, Option.map_none]
+    | some p =>
+      obtain ⟨m, off⟩ := p
+      simp only [step, Ev.map, h, Conn.map, Option.map_some]
+      congr 1
+      exact setCur_map g c.cur w none
+
+theorem run_map {F G : Type} (g : F → G) (lenF : F → Nat) (lenG : G → Nat)
+    (hlen : ∀ m, lenG (g m) = lenF m) (f : Facts) (evs : List (Ev F)) (c : Conn F) :
+    (run lenF f evs c).map g = run lenG f (evs.map (Ev.map g)) (c.map g) := by
+  induction evs generalizing c with
+  | nil => rfl
+  | cons e evs ih =>
+    simp only [run, List.foldl_cons, List.map_cons] at ih ⊢
+    rw [ih, step_map g lenF lenG hlen]
+
+theorem streamWith_map {F G : Type} (g : F → G) (bytes : G → Bytes) (c : Conn F) :
+    (c.map g).streamWith bytes = c.streamWith (fun m => bytes (g m)) := by
+  simp [Conn.streamWith, Conn.map, Seg.map, List.map_map, Function.comp_def]
+
+theorem stream_eq_streamWith (c : Conn Message) : c.stream = c.streamWith Message.toVec := by
+  simp only [Conn.stream, Conn.streamWith]
+  congr 1
+
 
 theorem inv_run (evs : List (Ev Message)) (c : Conn Message) (hi : Inv c) (he : ∀ e ∈ evs, e.Wf) :
     Inv (run mlen both evs c) := by
